@@ -1045,7 +1045,14 @@ impl PathSeg {
     ///
     /// Cast a ray to the left and count intersections.
     fn winding(&self, p: Point) -> i32 {
-        self.extrema_ranges()
+        let ranges = self.extrema_ranges();
+        if ranges.len() == 1 {
+            // No interior extrema: the segment is its own monotone piece. Using it as it is keeps
+            // the stored end points (a line's `subsegment(0.0..1.0)` re-derives its end point as
+            // `p0 + 1.0 * (p1 - p0)`, which can move it off the row of the next segment's start).
+            return self.winding_inner(p);
+        }
+        ranges
             .into_iter()
             .map(|range| self.subsegment(range).winding_inner(p))
             .sum()
